@@ -63,12 +63,16 @@ func NewChecker(ctx context.Context, metrics *Store, threshold float64) *Checker
 func (mc *Checker) CheckPeers(peers []peer.ID) error {
 	for _, name := range mc.metrics.MetricNames() {
 		for _, peer := range peers {
-			for _, metric := range mc.metrics.PeerMetricAll(name, peer) {
-				if mc.FailedMetric(metric.Name, peer) {
-					err := mc.alert(peer, metric.Name)
-					if err != nil {
-						return err
-					}
+			// Check each (metric name, peer) once per round, and
+			// not once per entry in the metrics window: the
+			// latter alerted repeatedly for a single expiry.
+			if len(mc.metrics.PeerMetricAll(name, peer)) == 0 {
+				continue
+			}
+			if mc.FailedMetric(name, peer) {
+				err := mc.alert(peer, name)
+				if err != nil {
+					return err
 				}
 			}
 		}
